@@ -6,8 +6,13 @@ package fluentdforward
 
 import (
 	"errors"
+	"net"
+	"time"
 
+	"github.com/relex/gotils/logger"
+	"github.com/relex/slog-agent/base"
 	"github.com/relex/slog-agent/zz_verif/sym"
+	"github.com/vmihailenco/msgpack/v4"
 )
 
 type verifShortWriter struct {
@@ -59,4 +64,98 @@ func VerifC02_WriteAllShortWrites() {
 		}
 		sym.Reach("failed")
 	}
+}
+
+// ---- the connection leaf: every blocking operation runs under its own deadline ----
+// The client scenario (baseoutput harness) assumes that a hung send / ping /
+// ACK read returns when its deadline passes; forwardConnection discharges that
+// by setting the matching socket deadline before each operation.
+
+type verifDeadlineConn struct {
+	readDeadline, writeDeadline time.Time
+	wantRead, wantWrite         time.Time
+	reads, writes               int
+	failSet                     bool
+}
+
+func (c *verifDeadlineConn) Read(p []byte) (int, error) {
+	c.reads++
+	sym.Assert(c.readDeadline.Equal(c.wantRead), "a read from the upstream runs under the read deadline given for this operation")
+	return 0, errVerifWrite
+}
+
+func (c *verifDeadlineConn) Write(p []byte) (int, error) {
+	c.writes++
+	sym.Assert(c.writeDeadline.Equal(c.wantWrite), "a write to the upstream runs under the write deadline given for this operation")
+	return len(p), nil
+}
+func (c *verifDeadlineConn) Close() error         { return nil }
+func (c *verifDeadlineConn) LocalAddr() net.Addr  { return nil }
+func (c *verifDeadlineConn) RemoteAddr() net.Addr { return nil }
+func (c *verifDeadlineConn) SetDeadline(t time.Time) error {
+	c.readDeadline, c.writeDeadline = t, t
+	return nil
+}
+func (c *verifDeadlineConn) SetReadDeadline(t time.Time) error {
+	if c.failSet {
+		return errVerifWrite
+	}
+	c.readDeadline = t
+	return nil
+}
+func (c *verifDeadlineConn) SetWriteDeadline(t time.Time) error {
+	if c.failSet {
+		return errVerifWrite
+	}
+	c.writeDeadline = t
+	return nil
+}
+
+var verifCurConn *verifDeadlineConn
+
+// verifStubDecode models (*msgpack.Decoder).Decode as far as this harness needs it: it reads from the socket.
+func verifStubDecode(d *msgpack.Decoder, v ...interface{}) error {
+	_, err := verifCurConn.Read(make([]byte, 1))
+	return err
+}
+
+// VerifC02_ConnectionDeadlines: a symbolic sequence of three operations (send a
+// chunk, ping, read an ACK) with symbolic deadlines on one connection: each
+// socket write / read happens under exactly the deadline passed for that
+// operation (a deadline of another operation, or of the other direction, left
+// in place would let a hung upstream block the client for ever); a failing
+// Set*Deadline is reported and nothing is written or read.
+//
+//verif:native off
+//verif:stub (*github.com/vmihailenco/msgpack/v4.Decoder).Decode verifStubDecode
+//verif:reach done
+func VerifC02_ConnectionDeadlines() {
+	conn := &verifDeadlineConn{}
+	verifCurConn = conn
+	internalPingMessage = []byte{0x93, 0xa1, 'p', 0x90, 0x80} // the real one is built with the reflection-based encoder at package init
+	fconn := &forwardConnection{logger: logger.Root(), socket: conn}
+	for i := 0; i < 3; i++ {
+		d := time.Unix(int64(sym.IntRange("deadline", 1, 1000000)), 0)
+		conn.failSet = sym.Bool("setDeadlineFails")
+		reads, writes := conn.reads, conn.writes
+		var err error
+		switch sym.Choice("op", 3) {
+		case 0:
+			conn.wantWrite = d
+			err = fconn.SendChunk(base.LogChunk{ID: "c", Data: []byte{1, 2, 3}}, d)
+			sym.Assert(conn.failSet || (err == nil && conn.writes > writes), "the chunk is written")
+		case 1:
+			conn.wantWrite = d
+			err = fconn.SendPing(d)
+			sym.Assert(conn.failSet || (err == nil && conn.writes > writes), "the ping is written")
+		case 2:
+			conn.wantRead = d
+			_, err = fconn.ReadChunkAck(d)
+			sym.Assert(conn.failSet || conn.reads > reads, "the ACK is read from the socket")
+		}
+		if conn.failSet {
+			sym.Assert(err != nil && conn.reads == reads && conn.writes == writes, "a deadline that cannot be set is reported and the operation is not attempted")
+		}
+	}
+	sym.Reach("done")
 }
